@@ -193,13 +193,22 @@ def check_order(ctx, R="C15.order"):
         ctx.finding(R, gi, "sampleAll argument", "Samplable.sampleAll is no longer called with self.dependencies")
     # LazilyEvaluable keeps dependencies in given order
     le = model.func("scenic.core.lazy_eval", "LazilyEvaluable.__init__")
-    if "self._dependencies = tuple(dependencies)" in unparse(le):
+    if "self._dependencies = tuple(dependencies)" in unparse(le):  # `dependencies` is a keyword-visible parameter
         ctx.ok(R, le, "a value's own dependencies keep the order in which its constructor listed them")
     else:
         ctx.finding(R, le, "LazilyEvaluable dependencies order", "LazilyEvaluable.__init__ no longer stores `tuple(dependencies)` in the given order")
     sm = model.func("scenic.core.distributions", "Samplable.__init__")
-    deps_defs = [n for n in walk_local(sm) if isinstance(n, ast.Assign) and unparse(n.targets[0]) == "deps"]
-    if deps_defs and isinstance(deps_defs[0].value, ast.List):
+    # the collection handed to LazilyEvaluable.__init__ (super().__init__(<deps>, ...)), whatever the local is called
+    sup = [c for c in walk_local(sm) if isinstance(c, ast.Call) and unparse(c.func) == "super().__init__"]
+    dname = None
+    if sup:
+        # bind the call to LazilyEvaluable.__init__(self, requiredProps, dependencies=())
+        lparams = [a.arg for a in le.args.args][1:]
+        di = lparams.index("dependencies") if "dependencies" in lparams else None
+        darg = lib.kw(sup[0], "dependencies") or (sup[0].args[di] if di is not None and di < len(sup[0].args) else None)
+        dname = darg.id if isinstance(darg, ast.Name) else None
+    deps_defs = [n for n in walk_local(sm) if isinstance(n, ast.Assign) and unparse(n.targets[0]) == dname]
+    if deps_defs and all(isinstance(d.value, ast.List) or (isinstance(d.value, ast.Call) and dotted(d.value.func) in ("list", "tuple")) for d in deps_defs):
         ctx.ok(R, sm, "Samplable collects its lazy dependencies in a list (ordered)")
     else:
         ctx.finding(R, sm, "Samplable deps container", "Samplable.__init__ no longer collects dependencies in a list")
